@@ -26,7 +26,7 @@ import (
 	"os"
 	"path/filepath"
 	"regexp"
-	"runtime"
+	"runtime/pprof"
 	"sort"
 	"strconv"
 	"strings"
@@ -47,8 +47,11 @@ import (
 // The kill allowance process.killProcess gives a command: SIGTERM, 30 ms, SIGKILL, 1 s.
 const killAllowance = 30*time.Millisecond + time.Second
 
+// e2eLimit is the watchdog of one plz invocation whose action has timeout = 1 (normal: 2-4 s).
+const e2eLimit = 100 * time.Second
+
 // Watchdog slack on top of timeout+killAllowance before a call is examined for being blocked.
-const watchdogSlack = 90 * time.Second
+const watchdogSlack = 40 * time.Second
 
 // ---------------------------------------------------------------------------------------------
 // command generator
@@ -428,30 +431,34 @@ type callResult struct {
 	elapsed        time.Duration
 }
 
-var execFrame = regexp.MustCompile(`(?m)^github\.com/thought-machine/please/src/process\.\(\*Executor\)\.ExecWithTimeout`)
-
-// blockedInExec looks for a goroutine that sits inside ExecWithTimeout in a blocking state.
-func blockedInExec() (bool, string) {
-	buf := make([]byte, 1<<22)
-	buf = buf[:runtime.Stack(buf, true)]
-	for _, g := range strings.Split(string(buf), "\n\n") {
-		if !execFrame.MatchString(g) {
+// blockedInExec looks up the goroutine labelled with this case's marker in the goroutine profile and
+// reports whether it sits inside ExecWithTimeout in a blocking runtime call. This, not the elapsed time,
+// is what makes a late call a "blocked" call.
+func blockedInExec(mark string) (bool, string) {
+	var buf bytes.Buffer
+	if p := pprof.Lookup("goroutine"); p == nil || p.WriteTo(&buf, 1) != nil {
+		return false, ""
+	}
+	for _, g := range strings.Split(buf.String(), "\n\n") {
+		if !strings.Contains(g, `"c30case":"`+mark+`"`) || !strings.Contains(g, "process.(*Executor).ExecWithTimeout") {
 			continue
 		}
-		head, _, _ := strings.Cut(g, "\n")
-		// other workers are legitimately inside ExecWithTimeout for a second or two; only a goroutine the
-		// runtime reports as blocked for minutes is the one this watchdog is about
-		if !strings.Contains(head, "minutes") {
-			continue
-		}
-		for _, st := range []string{"chan receive", "select", "semacquire", "IO wait", "sync."} {
-			if strings.Contains(head, st) {
+		for _, st := range []string{"runtime.chanrecv", "runtime.selectgo", "runtime.gopark", "sync.", "internal/poll.", "runtime.semacquire"} {
+			if strings.Contains(g, st) {
 				return true, lib.Tail(g, 3000)
 			}
 		}
 	}
 	return false, ""
 }
+
+// noReturns counts watchdog firings in this process; after a few, the remaining cases of the layer are
+// skipped (the run is already a refutation) so that a hanging build of Please cannot exhaust the budget.
+var noReturns int64
+
+const maxNoReturns = 3
+
+var e2eNoReturns int64
 
 type ipOutcome struct {
 	res       callResult
@@ -473,7 +480,7 @@ func runIP(exec *process.Executor, s *spec, dir, mark string) ipOutcome {
 	timeout := time.Duration(s.TimeoutMS) * time.Millisecond
 	script := s.render(dir)
 	done := make(chan callResult, 1)
-	go func() {
+	go pprof.Do(context.Background(), pprof.Labels("c30case", mark), func(context.Context) {
 		start := time.Now()
 		var out, outerr []byte
 		var err error
@@ -491,14 +498,15 @@ func runIP(exec *process.Executor, s *spec, dir, mark string) ipOutcome {
 		}
 		// only the lengths: the contents may still be written by a copier goroutine if Please returned early
 		done <- callResult{outLen: len(out), errLen: len(outerr), err: err, elapsed: time.Since(start)}
-	}()
+	})
 	o := ipOutcome{markerEnv: "VERIF_MARK=" + mark}
 	select {
 	case o.res = <-done:
 		o.returned = true
 	case <-time.After(timeout + killAllowance + watchdogSlack):
 		o.watchdog = true
-		if b, dump := blockedInExec(); b {
+		atomic.AddInt64(&noReturns, 1)
+		if b, dump := blockedInExec(mark); b {
 			o.blocked = dump
 		}
 		// release whatever it waits for and give it another generous chance to come back
@@ -506,7 +514,7 @@ func runIP(exec *process.Executor, s *spec, dir, mark string) ipOutcome {
 		select {
 		case o.res = <-done:
 			o.returned = true
-		case <-time.After(watchdogSlack):
+		case <-time.After(watchdogSlack / 2):
 		}
 	}
 	o.phase = "after-normal-exit"
@@ -553,7 +561,7 @@ func runE2E(bin string, s *spec, work, mark string) e2eOutcome {
 	if err := lib.WriteTree(repo, map[string]string{".plzconfig": x.BaseConfig("", ""), "p/BUILD": build}); err != nil {
 		panic(err)
 	}
-	res := lib.PlzCmd{Bin: bin, Dir: repo, Args: []string{verb, "//p:t"}, Home: home, Timeout: 240 * time.Second, OnTimeout: lib.QuiescenceReport}.Run()
+	res := lib.PlzCmd{Bin: bin, Dir: repo, Args: []string{verb, "//p:t"}, Home: home, Timeout: e2eLimit, OnTimeout: lib.QuiescenceReport}.Run()
 	o := e2eOutcome{res: res, build: build}
 	if !res.TimedOut {
 		o.set = settle(mark)
@@ -662,6 +670,10 @@ func TestC30(t *testing.T) {
 	nIP := r.Pick(96, 2400)
 	r.ForEach("ip", nIP, 8, func(i int, rng *rand.Rand) {
 		s := genSpec(rng, false)
+		if atomic.LoadInt64(&noReturns) >= maxNoReturns {
+			r.Obs("cases_skipped_after_repeated_no_return", 1)
+			return
+		}
 		dir := filepath.Join(scratch, fmt.Sprintf("ip%d", i))
 		mark := fmt.Sprintf("%s.ip%d", runTag, i)
 		script := s.render(dir)
@@ -677,7 +689,11 @@ func TestC30(t *testing.T) {
 		if o.watchdog {
 			if o.blocked != "" {
 				wit["goroutine"] = o.blocked
-				r.Violation("no-return/"+string(s.Main)+"/"+strings.Join(kinds(s.Bg), "+"), fmt.Sprintf("ExecWithTimeout had not returned %s after timeout+kill allowance and its goroutine is blocked", watchdogSlack), wit, i)
+				site := "unknown"
+				if m := regexp.MustCompile(`please/src/(process\.[A-Za-z0-9_.()*]+)\+`).FindStringSubmatch(o.blocked); m != nil {
+					site = m[1] // innermost src/process frame of the blocked goroutine
+				}
+				r.Violation("no-return/blocked-in-"+site, fmt.Sprintf("ExecWithTimeout had not returned %s after timeout+kill allowance and its goroutine is blocked", watchdogSlack), wit, i)
 			} else {
 				r.Inconclusive(fmt.Sprintf("ip case %d: watchdog fired but the call is not visibly blocked", i))
 			}
@@ -712,6 +728,10 @@ func TestC30(t *testing.T) {
 		nE := r.Pick(24, 600)
 		r.ForEach("e2e", nE, 6, func(i int, rng *rand.Rand) {
 			s := genSpec(rng, true)
+			if atomic.LoadInt64(&e2eNoReturns) >= maxNoReturns {
+				r.Obs("cases_skipped_after_repeated_no_return", 1)
+				return
+			}
 			work := filepath.Join(scratch, fmt.Sprintf("e2e%d", i))
 			mark := fmt.Sprintf("%s.e2e%d", runTag, i)
 			o := runE2E(bin, s, work, mark)
@@ -721,9 +741,10 @@ func TestC30(t *testing.T) {
 			r.ObsDistinct("e2e_rules", s.Rule)
 			wit := map[string]any{"layer": "e2e", "spec": s, "BUILD": o.build, "exit": o.res.Exit, "stdout": lib.Tail(o.res.Stdout, 1200), "stderr": lib.Tail(o.res.Stderr, 1200), "marker": "VERIF_MARK=" + mark}
 			if o.res.TimedOut {
+				atomic.AddInt64(&e2eNoReturns, 1)
 				if strings.HasPrefix(o.res.Watchdog, "hang") {
 					wit["watchdog"] = o.res.Watchdog
-					r.Violation("e2e/no-return/"+string(s.Main)+"/"+strings.Join(kinds(s.Bg), "+"), "plz did not return 240 s after starting an action with timeout = 1 and is quiescent: "+o.res.Watchdog, wit, i)
+					r.Violation("e2e/no-return", "plz did not return "+e2eLimit.String()+" after starting an action with timeout = 1 and is quiescent: "+o.res.Watchdog, wit, i)
 				} else {
 					r.Inconclusive(fmt.Sprintf("e2e case %d: plz watchdog fired: %s", i, o.res.Watchdog))
 				}
